@@ -498,12 +498,14 @@ Definition edge (pol : bool) (c0 c1 : Z) : bool :=
 Inductive ffupd := FU (q : sigspec) (v : option Z).
 
 (* e0: settled environment before the inputs changed; e1: settled with the new inputs and the old state.
-   A flip-flop whose clock has its active edge between e0 and e1 takes D as it was before the edge. *)
-Definition ff_update (e0 e1 : wenv) (it : item) : list ffupd :=
+   A flip-flop whose clock has its active edge between k0 and k1 takes D as it was before the edge (in e0).
+   Ordinarily (k0, k1) = (e0, e1); for the simulator's behaviour F7 (see step) they are e1 with the domain's clock
+   input forced to its inactive / active level. *)
+Definition ff_update (k0 k1 e0 e1 : wenv) (it : item) : list ffupd :=
   match it with
   | IDff w pol d clk q =>
       if (spec_w d =? w) && (spec_w q =? w) && (spec_w clk =? 1) then
-        match rd_spec e0 clk, rd_spec e1 clk with
+        match rd_spec k0 clk, rd_spec k1 clk with
         | Some c0, Some c1 => if edge pol c0 c1 then [FU q (rd_spec e0 d)] else []
         | _, _ => [FU q None]
         end
@@ -513,7 +515,7 @@ Definition ff_update (e0 e1 : wenv) (it : item) : list ffupd :=
         match rd_spec e1 ar with
         | Some a =>
             if Bool.eqb (negb (a =? 0)) apol then [FU q (Some (mask w av))]
-            else match rd_spec e0 clk, rd_spec e1 clk with
+            else match rd_spec k0 clk, rd_spec k1 clk with
                  | Some c0, Some c1 => if edge pol c0 c1 then [FU q (rd_spec e0 d)] else []
                  | _, _ => [FU q None]
                  end
@@ -527,11 +529,11 @@ Definition ff_update (e0 e1 : wenv) (it : item) : list ffupd :=
 (* write ports active on this step: (mem, portid, addr, data, enable mask), all sampled before the edge *)
 Record wrop := WrOp { wo_mem : nat; wo_port : Z; wo_addr : option Z; wo_data : option Z; wo_en : option Z }.
 
-Definition wr_ops (e0 e1 : wenv) (items : list item) : list wrop :=
+Definition wr_ops (k0 k1 e0 : wenv) (items : list item) : list wrop :=
   flat_map (fun it =>
     match it with
     | IMemWr mem ab w pol pid addr data en clk =>
-        match rd_spec e0 clk, rd_spec e1 clk with
+        match rd_spec k0 clk, rd_spec k1 clk with
         | Some c0, Some c1 =>
             if edge pol c0 c1 then [WrOp mem pid (rd_spec e0 addr) (rd_spec e0 data) (rd_spec e0 en)] else []
         | _, _ => [WrOp mem pid None None None]
@@ -558,11 +560,11 @@ Definition apply_writes (ms : list memdecl) (me : menv) (ops : list wrop) : menv
 
 (* clocked read ports: on the active edge with EN, DATA := row before the writes, except that bits written on the
    same edge through a port of TRANSPARENCY_MASK to the same address show the written data *)
-Definition rd_updates (ms : list memdecl) (me : menv) (ops : list wrop) (e0 e1 : wenv) (items : list item) : list ffupd :=
+Definition rd_updates (ms : list memdecl) (me : menv) (ops : list wrop) (k0 k1 e0 : wenv) (items : list item) : list ffupd :=
   flat_map (fun it =>
     match it with
     | IMemRd mem ab w true pol tr addr en clk data =>
-        match rd_spec e0 clk, rd_spec e1 clk with
+        match rd_spec k0 clk, rd_spec k1 clk with
         | Some c0, Some c1 =>
             if edge pol c0 c1 then
               match rd_spec e0 en, rd_spec e0 addr with
@@ -620,17 +622,31 @@ Definition opt_eqb (a b : option Z) : bool :=
 Definition clocks_stable (items : list item) (e1 e2 : wenv) : bool :=
   forallb (fun c => opt_eqb (rd_spec e1 c) (rd_spec e2 c)) (clocks_of items).
 
-Definition step (sf : bool) (fl : flat) (fuel : nat) (st : state) (ins : list (nat * Z)) : state * Z :=
+(* vclk = [] : the RTLIL semantics.  vclk = [(clock input, inactive level, active level)] : the simulator's behaviour
+   F7 on a rise of an async reset — every clocked element that would see an active edge if that clock input pulsed
+   behaves as if it did (the sync process of the domain runs), with D taken before the step as usual. *)
+Definition step (sf : bool) (fl : flat) (fuel : nat) (st : state) (ins : list (nat * Z))
+                (vclk : list (nat * Z * Z)) : state * Z :=
   let ws := f_wires fl in let ms := f_mems fl in let items := f_items fl in
   let e0 := st_env st in
   let '(e1, ok1) := settle sf fuel ws ms (st_mem st) items (set_inputs ws e0 ins) in
-  let ups := flat_map (ff_update e0 e1) items in
-  let ops := wr_ops e0 e1 items in
-  let rups := rd_updates ms (st_mem st) ops e0 e1 items in
+  let '(k0, k1, okk) :=
+    match vclk with
+    | [] => (e0, e1, true)
+    | _ =>
+        let '(a0, oa) := settle sf fuel ws ms (st_mem st) items
+                                (set_inputs ws e1 (map (fun v => (fst (fst v), snd (fst v))) vclk)) in
+        let '(a1, ob) := settle sf fuel ws ms (st_mem st) items
+                                (set_inputs ws e1 (map (fun v => (fst (fst v), snd v)) vclk)) in
+        (a0, a1, oa && ob)
+    end in
+  let ups := flat_map (ff_update k0 k1 e0 e1) items in
+  let ops := wr_ops k0 k1 e0 items in
+  let rups := rd_updates ms (st_mem st) ops k0 k1 e0 items in
   let '(me', okw) := apply_writes ms (st_mem st) ops in
   let e1' := fold_left (fun e u => match u with FU q v => wr_spec ws e q v end) (ups ++ rups) e1 in
   let '(e2, ok2) := settle sf fuel ws ms me' items e1' in
-  let code := if negb (ok1 && ok2) then ST_NOCONV
+  let code := if negb (ok1 && ok2 && okk) then ST_NOCONV
               else if negb (clocks_stable items e1 e2) then ST_DERIVED_CLOCK
               else if negb okw then ST_UNDEF_WRITE else ST_OK in
   (St e2 me', code).
@@ -667,8 +683,14 @@ Definition observe (e : wenv) (obs : list (option (option nat * Z))) : list Z :=
 
 (* run: flatten, initial inputs, settle, observe; then one observation row per stimulus step.
    obs: (instance path, local wire, width) ; stimulus: per step, (top-level input wire, value) *)
-Definition run_with (sf : bool) (d : doc) (obs : list (option (list nat * nat * Z))) (init_ins : list (nat * Z))
-               (stim : list (list (nat * Z))) : list Z :=
+(* all rows of all memories (instance order), observed after the wires when `obsmem` *)
+Definition observe_mem (obsmem : bool) (me : menv) : list Z := if obsmem then concat me else [].
+
+(* a stimulus step: (emit an observation row after it?, input changes, virtual clock pulses (F7 semantics only)) *)
+Definition sstep := (bool * list (nat * Z) * list (nat * Z * Z))%type.
+
+Definition run_gen (sf : bool) (obsmem : bool) (d : doc) (obs : list (option (list nat * nat * Z)))
+                   (init_ins : list (nat * Z)) (stim : list sstep) : list Z :=
   let n := length d in
   let fl := flatten (S n) d 0 0 0 in
   if negb (f_ok fl) then [-3]
@@ -682,14 +704,20 @@ Definition run_with (sf : bool) (d : doc) (obs : list (option (list nat * nat * 
     let '(e0, ok0) := settle sf fuel (f_wires fl) (f_mems fl) (init_mem fl) (f_items fl)
                              (set_inputs (f_wires fl) (init_env fl) init_ins) in
     let st0 := St e0 (init_mem fl) in
-    let row0 := (if ok0 then ST_OK else ST_NOCONV) :: observe e0 robs in
+    let row0 := (if ok0 then ST_OK else ST_NOCONV) :: observe e0 robs ++ observe_mem obsmem (st_mem st0) in
     row0 ++
-    snd (fold_left (fun (acc : state * list Z) ins =>
-                      let '(st, out) := acc in
-                      let '(st', code) := step sf fl fuel st ins in
-                      (st', out ++ code :: observe (st_env st') robs))
-                   stim (st0, [])).
+    snd (fold_left (fun (acc : state * Z * list Z) (sp : sstep) =>
+                      let '(st, worst, out) := acc in
+                      let '(emit, ins, vclk) := sp in
+                      let '(st', code) := step sf fl fuel st ins vclk in
+                      let worst' := Z.max worst code in
+                      if emit then (st', 0, out ++ worst' :: observe (st_env st') robs ++ observe_mem obsmem (st_mem st'))
+                      else (st', worst', out))
+                   stim (st0, 0, [])).
 
+Definition run_with (sf : bool) (d : doc) (obs : list (option (list nat * nat * Z))) (init_ins : list (nat * Z))
+                    (stim : list (list (nat * Z))) : list Z :=
+  run_gen sf false d obs init_ins (map (fun ins => (true, ins, [])) stim).
 Definition run := run_with SHIFT_SIGNED_FILLS_SIGN.
 
 (* ====================================================================== *)
